@@ -19,7 +19,7 @@ RULE = (
     "non-trivial = the screen has >=2 plates and the op is not a no-op on the model"
 )
 ASSUMPTIONS = ["revealing a set consisting only of unknown plate ids may either raise ValueError or return the screen unchanged", "refusal of all-zero values is judged only when every plate of the revealed set is all zero"]
-REQUIRED = {"cli_refusals_checked": {"quick": 60, "thorough": 800}, "constructor_cases_with_unusual_values": {"quick": 40, "thorough": 600}, "reveals_with_negative_unknown_id": {"quick": 60, "thorough": 900}, "history_steps_checked": {"quick": 2500, "thorough": 40000}, "reveals_checked": {"quick": 600, "thorough": 10000}, "refusals_checked": {"quick": 100, "thorough": 1500}, "constructor_cases": {"quick": 150, "thorough": 2500}, "cli_steps": {"quick": 100, "thorough": 1500}, "earlier_stage_rechecks": {"quick": 10000, "thorough": 150000}, "branches": {"quick": 200, "thorough": 3000}, "in_place_reveals": {"quick": 150, "thorough": 2000}}
+REQUIRED = {"view_plate_counts_checked": {"quick": 500, "thorough": 8000}, "cli_refusals_checked": {"quick": 60, "thorough": 800}, "constructor_cases_with_unusual_values": {"quick": 40, "thorough": 600}, "reveals_with_negative_unknown_id": {"quick": 60, "thorough": 900}, "history_steps_checked": {"quick": 2500, "thorough": 40000}, "reveals_checked": {"quick": 600, "thorough": 10000}, "refusals_checked": {"quick": 100, "thorough": 1500}, "constructor_cases": {"quick": 150, "thorough": 2500}, "cli_steps": {"quick": 100, "thorough": 1500}, "earlier_stage_rechecks": {"quick": 10000, "thorough": 150000}, "branches": {"quick": 200, "thorough": 3000}, "in_place_reveals": {"quick": 150, "thorough": 2000}}
 N_HIST = {"quick": 960, "thorough": 9600}
 
 
@@ -145,6 +145,16 @@ def run_shard(rec, tier, seed, shard, nshards):
                         rec.check(model.n_unobserved() == before_unobs - len(newly), "C12/model/self-check", "model bookkeeping", w)
                         n_un = sum(1 for p in screen.plates if not p.is_observed)
                         rec.check(n_un == before_unobs - len(newly), "C12/reveal/unobserved-count", lambda: "unobserved plates %d -> %d after revealing %d new plates" % (before_unobs, n_un, len(newly)), w)
+                        # the same number through every accessor that reports it: the plate counts of the unobserved /
+                        # observed views and of the screen
+                        uv, ov = screen.subset_unobserved(), screen.subset_observed()
+                        rep_un = 0 if uv is None else int(uv.n_plates)
+                        rep_ob = 0 if ov is None else int(ov.n_plates)
+                        rec.count("view_plate_counts_checked")
+                        rec.check(rep_un == n_un and rep_ob == int(screen.n_plates) - n_un and int(screen.n_plates) == len(model.plate), "C12/reveal/unobserved-count", lambda: "after the reveal the unobserved view reports %d plates, the observed view %d, the screen %d; plate by plate there are %d unobserved of %d" % (rep_un, rep_ob, int(screen.n_plates), n_un, len(model.plate)), w)
+                        if len(model.plate):
+                            one = screen.get_plate(int(sorted(id_to_name)[0]))
+                            rec.check(int(one.n_plates) == 1, "C12/reveal/unobserved-count", lambda: "a single plate view reports %d plates" % int(one.n_plates), w)
                     elif op == "set_observed":
                         # marks a whole unobserved plate observed IN PLACE with its stored values: the stage itself changes
                         un = [k_ for k_, v_ in model.plate.items() if not v_]
